@@ -228,6 +228,14 @@ fn parse(case: &Value) -> (Spec, Option<Spec>, Spec, Vec<u8>, Vec<u8>) {
 }
 
 fn check14(case: &Value, obs: &mut Obs) {
+  // every second case builds equal-table maps as clones of each other
+  // (clone() + set_file / set_source_root / set_debug_id), the way a program
+  // derives one map from another: the values then share their allocations
+  let share = case.get("share_tables").and_then(|v| v.as_bool()).unwrap_or_else(|| crate::rng::fnv(case.to_string().as_bytes()) % 2 == 0);
+  crate::spec::share_map_tables(share);
+  if share {
+    obs.class("maps_derived_by_clone_and_setters");
+  }
   let (sa, sb, _other, hist_a, hist_b) = parse(case);
   let a = build_box(&sa);
   let a2 = build_box(&sa);
@@ -355,6 +363,14 @@ fn only_sms_name_differs(a: &Spec, b: &Spec) -> bool {
 }
 
 fn check20(case: &Value, obs: &mut Obs) {
+  // every second case builds equal-table maps as clones of each other
+  // (clone() + set_file / set_source_root / set_debug_id), the way a program
+  // derives one map from another: the values then share their allocations
+  let share = case.get("share_tables").and_then(|v| v.as_bool()).unwrap_or_else(|| crate::rng::fnv(case.to_string().as_bytes()) % 2 == 0);
+  crate::spec::share_map_tables(share);
+  if share {
+    obs.class("maps_derived_by_clone_and_setters");
+  }
   let (sa, sb, other, hist_a, _hist_b) = parse(case);
   let edit_kinds: Vec<String> = serde_json::from_value(case["edit"].clone()).unwrap_or_default();
   let a = build_box(&sa);
